@@ -73,7 +73,13 @@ class WitnessModel(Model):
         r.members['dims'] = [dim]
         return r
 
-    def matrix(self, interp, rows, dim0: str) -> SVar:
+    def matrix(self, interp, rows, dim0: str, like: SVar | None = None, dim1: str | None = None) -> SVar:
+        if not rows:  # a 2-d array without rows (an outer operation with an empty left operand)
+            r = self.new(interp, None, like.unit if like is not None else DIMENSIONLESS, like.dtype if like is not None else 'float64',
+                         why='empty 2-d array')
+            r.members['rows'] = []
+            r.members['dims'] = [dim0, dim1 or 'inner']
+            return r
         r = self.new(interp, None, rows[0].unit, rows[0].dtype, why='2-d array of symbolic scalars')
         r.members['rows'] = list(rows)
         r.members['dims'] = [dim0, rows[0].members['dims'][0]]
@@ -89,7 +95,7 @@ class WitnessModel(Model):
         it, rw = items_of(v), rows_of(v)
         if it is not None or rw is not None:
             dims = v.members['dims']
-            shape = (len(it),) if it is not None else (len(rw), len(items_of(rw[0])))
+            shape = (len(it),) if it is not None else (len(rw), len(items_of(rw[0])) if rw else 0)
             if attr == 'sizes':
                 return dict(zip(dims, shape, strict=True))
             if attr == 'shape':
@@ -218,7 +224,7 @@ class WitnessModel(Model):
             da, db = a.members['dims'][0], b.members['dims'][0]
             if da != db:
                 # outer product: rows follow the left operand
-                return self.matrix(interp, [self._zip(interp, x, b, f, node) for x in ia], da)
+                return self.matrix(interp, [self._zip(interp, x, b, f, node) for x in ia], da, like=b, dim1=db)
             if len(ia) != len(ib):
                 raise RaiseSignal('DimensionError', node, interp.where(node), (f'length mismatch {len(ia)} vs {len(ib)}',))
             return self.array(interp, [f(x, y) for x, y in zip(ia, ib, strict=True)], da)
@@ -655,6 +661,13 @@ class WitnessModel(Model):
         if mod in ('scipp',) and name in ('sum', 'min', 'max', 'mean', 'any', 'all') and args and isinstance(args[0], SVar) and self._is_arr(args[0]) \
                 and name not in ('any', 'all'):
             return self.call_method(interp, args[0], name, list(args[1:]), kwargs, node)
+        if path in ('numpy.ceil', 'numpy.floor', 'math.ceil', 'math.floor') and len(args) == 1 and isinstance(args[0], SVar) \
+                and items_of(args[0]) is None and isinstance(args[0].term, Rat):
+            x = args[0]
+            r = self.new(interp, Rat.fn(path.split('.')[-1], x.term), x.unit, 'int64' if path.startswith('math.') else x.dtype, x.taint, x.why)
+            r.kind = x.kind
+            r.members['dims'] = []
+            return r
         if path in ('numpy.argmin', 'numpy.argmax') and args and isinstance(args[0], SVar) and items_of(args[0]) is not None:
             vals = [self.value(x) for x in items_of(args[0])]
             if any(v is None for v in vals) or not vals:
